@@ -29,14 +29,25 @@ PROOFS = [
     LP('AddHead', mutants=[('head_not_set', r'm_head->m_prev = obj;\n      \}\n      m_head = obj;', 'm_head->m_prev = obj;\n      }', 'postcondition')]),
     LP('Swap', timeout=1200, mutants=[('adjacent_case_wrong', r'Remove\(obj2\);\n            AddBefore\(obj2, obj1\);', 'Remove(obj2);\n            AddAfter(obj2, obj1);', 'postcondition')]),
 ] + tokenizer_proofs.select(['tok_layout', 'parse_whitespace', 'parse_newline', 'parse_bs_newline', 'parse_off_newlines'])
+
+
+def _c19():
+    import importlib.util
+    sp = importlib.util.spec_from_file_location('c19proofs', os.path.join(here, '..', 'C19', 'proofs.py'))
+    m = importlib.util.module_from_spec(sp)
+    sp.loader.exec_module(m)
+    return [p for p in m.PROOFS if p.name in ('ensure_force_space', 'space_needed')]
+
+
+PROOFS += _c19()   # K3: the fusion guard (PCF_FORCE_SPACE) overrides Remove
 EXPLANATION = ('Kernel of C02. (1) ChunkListManager: every primitive preserves the doubly-linked-list representation invariant and changes the sequence exactly as '
                'specified (Remove: sequence minus obj; AddAfter/AddBefore/AddTail/AddHead: obj inserted at the stated place; Swap: the two exchanged), stated for an '
                'arbitrary observer node. Small-model argument: the primitives are loop free and dereference only their arguments and those arguments\' direct '
                'neighbours (at most 6 nodes); with one arbitrary observer the restriction of any heap to the touched nodes embeds into the pool of 8 nodes with '
                'arbitrary links used here, so the pool is exhaustive, not a bound. (2) the tokenizer white-space primitives consume only white space.')
-K = ['K1 ChunkListManager::{Remove, AddAfter, AddBefore, AddTail, AddHead, Swap}', 'K2 parse_whitespace / parse_newline / parse_bs_newline / parse_off_newlines discard only white space']
+K = ['K1 ChunkListManager::{Remove, AddAfter, AddBefore, AddTail, AddHead, Swap}', 'K3 ensure_force_space / space_needed: a pair flagged PCF_FORCE_SPACE always gets at least one space', 'K2 parse_whitespace / parse_newline / parse_bs_newline / parse_off_newlines discard only white space']
 G = ['combine/brace_cleanup/newline/align passes change the list only through these primitives (static fact: m_next/m_prev are written only in ListManager.h and chunk.cpp) and do not edit m_str of non-comment chunks',
-     'space_text forced-space guard (ensure_force_space / PCF_FORCE_SPACE) and output_text dispatch: not yet under contract',
+     'space_text sets PCF_FORCE_SPACE exactly on the pairs that would lex differently (the "general safety check" of space_text, 350-line loop): not under contract; output_text dispatch: not under contract',
      'output_to_column never moves left: contract written, proof does not close yet (WIP)',
      'AddAfter requires obj to be unlinked (it does not call Remove itself): a caller-side precondition, callers not verified',
      '"every directive stays on its logical line" (newline passes) and nine-language lexing: NOT covered']
